@@ -78,6 +78,53 @@ class Conv:
                 res.append(c)
         return res, unconfirmed
 
+    # ------------------------------------------------------------ ddmin outer
+    def ddmin_outer(self):
+        """-> trace record for TraceDdminOuter.tla (the applications of
+        strategy_ddmin.reduce), or None."""
+        r = self.run
+        if r.timed_out or r.status != 0:
+            return None
+        ev = self.main_events()
+        i0 = next((i for i, e in enumerate(ev)
+                   if e['ev'] == 'reduce_begin' and e['strat'] == 'ddmin'),
+                  None)
+        i1 = next((i for i, e in enumerate(ev)
+                   if e['ev'] == 'reduce_end' and e['strat'] == 'ddmin'),
+                  None)
+        if i0 is None or i1 is None:
+            return None
+        seg = ev[i0:i1 + 1]
+        passes = next((e['passes'] for e in seg if e['ev'] == 'passes'
+                       and e.get('strat') == 'ddmin'), None)
+        if passes is None or len(passes) != 2:
+            return None
+        out, cur = [], None
+        sizes = []
+        for e in seg:
+            t = e['ev']
+            if t == 'apply_begin':
+                cur = {'e': 'apply', 'mut': e['mut'],
+                       'depth': 1 if e['max_depth'] == 1 else
+                       (0 if e['max_depth'] is None else -1),
+                       'nbefore': e['nexprs'], 'grans': [], 'nfiltered': -1}
+                sizes.append(e['nexprs'])
+            elif t == 'round' and cur is not None:
+                if not cur['grans']:
+                    cur['nfiltered'] = e['nfiltered']
+                cur['grans'].append(e['gran'])
+            elif t == 'apply_end' and cur is not None:
+                cur['red'] = e['reduced']
+                cur['nafter'] = e['nexprs']
+                sizes.append(e['nexprs'])
+                out.append(cur)
+                cur = None
+        nres = sum(1 for t in seg[-1]['result'] if t == '(')
+        out.append({'e': 'end', 'nresult': nres})
+        size0 = sum(1 for t in seg[0]['base'] if t == '(')
+        return {'stage1': passes[0], 'stage2': passes[1], 'size0': size0,
+                'maxsize': max(sizes + [size0, nres]) + 1, 'events': out}
+
     # --------------------------------------------------------------- session
     def session(self):
         """-> trace record for TraceSession.tla (composition of the phases,
